@@ -520,6 +520,13 @@ def SOp.cropping : SOp → Bool
   | .padOrCropTo _ _ => false
   | _ => true
 
+/-- the operations that rearrange or extend the grid (everything except indexing and the two cropping ones) -/
+def SOp.keepsAll : SOp → Bool
+  | .getitem _ => false
+  | .cropTo _ => false
+  | .padOrCropTo _ _ => false
+  | _ => true
+
 /-- the `VolumeGeometry` method -/
 def SOp.applyGeom (coord : Coord) (g : Geom) (op : SOp) : Except ErrKind GStep := op.applyG AxMap.size coord g
 
